@@ -21,11 +21,31 @@ def run(rep, ctx, anchor, source_field, rule="R5o"):
     starts = [("STATE", source_field, t) for t in T.SCALARS]
     reached = {st[0] for st in g.reach(starts, cut=ctx.sponge_cut(g), kinds=(DATA, ALIAS))}
     bad = None
+    first = False
     n = 0
     for bid in sorted(g.scope):
         b = f.bodies[bid]
         for i, t in b.calls():
             nm = (t.get("callee") or "").rsplit("::", 1)[-1]
+            # (`or_insert_with(|| f(key))` is the memoisation idiom - the value is a function of the key - and is not judged)
+            if nm in ("or_insert",) and "Entry" in (t.get("callee") or "") and len(t["args"]) == 2 \
+                    and t["args"][1]["k"] in ("copy", "move"):
+                # the mirror image: `entry(key).or_insert(value)` keeps the *first* value stored under a key. Fine for a
+                # neutral start value that is then accumulated into; lossy when the value itself carries the coefficient
+                n += 1
+                v = t["args"][1]
+                vn = (bid, v["pl"]["l"])
+                hit = vn in reached
+                if not hit and nm == "or_insert_with":
+                    # the closure's captured operands
+                    for blk in b.blocks:
+                        for st in blk["stmts"]:
+                            if st["dst"]["l"] == v["pl"]["l"] and st["rv"].get("k") == "agg" and st["rv"].get("closure"):
+                                hit = hit or any(o["k"] in ("copy", "move") and (bid, o["pl"]["l"]) in reached for o in st["rv"]["ops"])
+                if hit:
+                    bad = t["span"]
+                    first = True
+                continue
             if nm != "insert" or len(t["args"]) != 3 or t["args"][0]["k"] not in ("copy", "move"):
                 continue
             if not any(m in (b.locals[t["args"][0]["pl"]["l"]]["ty"] or "") for m in MAPS):
@@ -42,6 +62,8 @@ def run(rep, ctx, anchor, source_field, rule="R5o"):
     rep.add(rule, "%s:coefficients-not-overwritten" % anchor.key, bad is None,
             "no map insert in scope (%d examined) stores a coefficient-derived value while discarding the entry it replaces" % n
             if bad is None else
-            "the insert at %s stores a value derived from a term's coefficient and discards the entry it replaces: two "
-            "terms with the same key collapse into the last one" % bad, bad or anchor.body.span)
+            ("the `or_insert` at %s offers a value derived from a term's coefficient to a slot that keeps what it already "
+             "holds: of two terms with the same key only the first counts" % bad) if first else
+            ("the insert at %s stores a value derived from a term's coefficient and discards the entry it replaces: two "
+             "terms with the same key collapse into the last one" % bad), bad or anchor.body.span)
     return 1
